@@ -5,6 +5,7 @@ import (
 	"go/ast"
 	"go/token"
 	"go/types"
+	"strings"
 )
 
 // adoptEffects copies heap/object/ghost changes made in a guarded sub-state back into st
@@ -612,10 +613,21 @@ type modSet struct {
 	calls   bool
 	wslices map[types.Object]bool // slice variables written through
 	unknownWrite bool
+	paths   []string // selector paths assigned in the loop (or listed under on-call modifies)
+	node    ast.Node
 }
 
 func (fc *FnCtx) modified(nodes ...ast.Node) *modSet {
 	ms := &modSet{vars: map[types.Object]bool{}, wslices: map[types.Object]bool{}}
+	if fc.contract != nil && len(fc.contract.Stable) > 0 {
+		ms.paths = fc.assignedPaths(nodes...)
+		for _, n := range nodes {
+			if n != nil {
+				ms.node = n
+				break
+			}
+		}
+	}
 	var markLhs func(e ast.Expr)
 	rootVar := func(e ast.Expr) types.Object {
 		for {
@@ -772,6 +784,12 @@ func (fc *FnCtx) havocForLoop(st *State, ms *modSet, entry *State) {
 	}
 	if ms.objs || ms.calls {
 		fc.havocObjects(st, ms.calls)
+		// stable fields survive calls, but not assignments made by the loop itself
+		for _, p := range ms.paths {
+			if fc.isStable(p) {
+				fc.havocPath(st, p, ms.node)
+			}
+		}
 	}
 	if ms.heap {
 		old := st.heap
@@ -853,7 +871,16 @@ func (fc *FnCtx) freshGhost(g GhostDecl) Val {
 
 // havocObjects forgets the contents of all objects except fields declared stable.
 func (fc *FnCtx) havocObjects(st *State, all bool) {
+	boxes := map[int]bool{}
+	for k, v := range st.ghost {
+		if strings.HasPrefix(k, "boxed:") {
+			boxes[fc.objIndex(v)] = true
+		}
+	}
 	for id, v := range st.objs {
+		if boxes[id] {
+			continue // a boxed local: changed only by calls that receive its address (havocBoxedArgs)
+		}
 		st.objs[id] = fc.havocKeepStable(v, fmt.Sprintf("o%d", id), fc.objStablePrefix(st, id))
 	}
 	for k := range st.ghost {
@@ -864,34 +891,77 @@ func (fc *FnCtx) havocObjects(st *State, all bool) {
 }
 
 // objStablePrefix finds the contract-visible name of an object (receiver/param name) for `stable` matching.
-func (fc *FnCtx) objStablePrefix(st *State, id int) string {
+func (fc *FnCtx) objStablePrefix(st *State, id int) []string {
+	if fc.contract == nil || len(fc.contract.Stable) == 0 {
+		return nil
+	}
+	var names []string
 	for name, v := range fc.entryVars {
 		if p, ok := v.(VPtr); ok && p.Obj == id {
-			return name
+			names = append(names, name)
 		}
 	}
-	return ""
+	// locals that point to the object (e.g. ctx := s.acquireCtx(c))
+	for o, v := range st.vars {
+		if p, ok := v.(VPtr); ok {
+			pid := p.Obj
+			if pid < 0 {
+				if ov, ok := st.ghost["ptr:"+p.ID.S]; ok {
+					pid = fc.objIndex(ov)
+				}
+			}
+			if pid == id {
+				names = append(names, o.Name())
+			}
+		}
+	}
+	return names
 }
 
-func (fc *FnCtx) havocKeepStable(v Val, hint, prefix string) Val {
+func (fc *FnCtx) havocKeepStable(v Val, hint string, prefixes []string) Val {
 	sv, ok := v.(VStruct)
 	if !ok {
 		return fc.havocLike(v, hint)
 	}
 	nf := map[string]Val{}
 	for k, f := range sv.F {
-		p := prefix + "." + k
-		if prefix != "" && fc.isStable(p) {
+		keep, under := false, false
+		var sub []string
+		for _, prefix := range prefixes {
+			p := prefix + "." + k
+			if fc.isStable(p) {
+				keep = true
+			}
+			if fc.hasStableUnder(p) {
+				under = true
+			}
+			sub = append(sub, p)
+		}
+		if keep {
 			nf[k] = f
 			continue
 		}
-		if fsv, ok := f.(VStruct); ok && prefix != "" && fc.hasStableUnder(p) {
-			nf[k] = fc.havocKeepStable(fsv, hint+"."+k, p)
+		if fsv, ok := f.(VStruct); ok && under {
+			nf[k] = fc.havocKeepStable(fsv, hint+"."+k, sub)
 			continue
 		}
 		// dropped: re-materialised lazily as unknown
 	}
 	return VStruct{sv.Typ, nf}
+}
+
+// havocPath forgets one field path such as "ctx.hijackHandler" (root = a variable visible at pos).
+func (fc *FnCtx) havocPath(st *State, path string, at ast.Node) {
+	e, err := parseSpecExpr(path)
+	if err != nil {
+		panic(unsupported("modifies path " + path))
+	}
+	fc.curScopeNode = at
+	cur, l, ok := fc.specLocScoped(st, e, at)
+	if !ok || l == nil {
+		return // nothing materialised under that path: already unknown
+	}
+	fc.storeLoc(st, *l, fc.havocLike(cur, "mod"))
 }
 
 func (fc *FnCtx) isStable(path string) bool {
